@@ -509,9 +509,10 @@ def _ensure_minor_version_compatibility_pairwise(
     elif a.version.major > 0:  # Types with major=0 are exempt from compatibility requirements.
         if a.extent != b.extent:
             raise ExtentConsistencyError(
-                "The extent of %s is %d bits, whereas the extent of %s is %d bits. "
+                "The extent of %s is %s bits, whereas the extent of %s is %s bits. "
                 "The types share the same major version, so their extents should be equal "
-                "to avoid wire compatibility issues." % (a, a.extent, b, b.extent),
+                "to avoid wire compatibility issues."
+                % (a, _error.format_integer(a.extent), b, _error.format_integer(b.extent)),
                 path=a.source_file_path,
             )
         a_sealed = not isinstance(a, _serializable.DelimitedType)
